@@ -534,6 +534,41 @@ func rulesSymmetrical(c *Ctx, r *Report, f *ssa.Function) {
 
 func rulesGoString(c *Ctx, r *Report, f *ssa.Function) {
 	where := fname(f)
+	// the text is built in a buffer of this call's own: allocated here, not taken from a pool or a package variable
+	// (what an earlier call left in a shared buffer would come first)
+	{
+		var shared []string
+		nW := 0
+		for _, fc := range fmtCallsIn(f) {
+			nW++
+			w := fc.w
+			for {
+				switch x := w.(type) {
+				case *ssa.MakeInterface:
+					w = x.X
+					continue
+				case *ssa.ChangeType:
+					w = x.X
+					continue
+				}
+				break
+			}
+			fresh := false
+			switch x := w.(type) {
+			case *ssa.Alloc:
+				fresh = x.Parent() == f || fc.sy != nil
+			case *ssa.Call:
+				fresh = fnIs(x.Call.StaticCallee(), "bytes", "NewBuffer") || fnIs(x.Call.StaticCallee(), "bytes", "NewBufferString")
+			case *ssa.Parameter:
+				fresh = x.Parent() != f // a helper's writer parameter: judged at the call in GoString
+			}
+			if !fresh {
+				shared = append(shared, c.pos(fc.call.Pos()))
+			}
+		}
+		r.check(len(shared) == 0 && nW > 0, "GS", where, "a buffer of its own", c.pos(f.Pos()),
+			"every write of GoString goes into a buffer allocated by this call", fmt.Sprintf("GoString writes into a buffer that is not allocated by this call (writes at %v): text left there by an earlier call comes out first", shared))
+	}
 	// the keys may be collected and sorted by a helper stage that receives the matrix
 	kf := f
 	hasSort := func(g *ssa.Function) bool {
